@@ -579,8 +579,9 @@ def _next_sig(toks, k):
         k += 1
     return k
 
-def block_end_tok(body, k_open):
-    """token index before which an `end` hint of the block body[k_open]=='{' is inserted:
+def block_end_tok(body, k_open, unit_block=False):
+    """(unit_block: the block is a loop body, so a block-like tail expression has unit type and the end is after it)
+    token index before which an `end` hint of the block body[k_open]=='{' is inserted:
     the first token of the tail expression, or the closing brace when the block ends with a statement."""
     k_close = match_close(body, k_open)
     depth = 0
@@ -608,7 +609,7 @@ def block_end_tok(body, k_open):
                         if nxt == k_close:
                             # block-like element in tail position: it is the tail expression -- except for
                             # `while`/`for` loops, which have unit type: the end position is after them
-                            if first.text in ("while", "for"):
+                            if first.text in ("while", "for") or unit_block:
                                 return k_close
                             if first.text == "if" and not has_else[0]:
                                 return k_close       # `if` without `else` has unit type
@@ -796,6 +797,8 @@ def emit_fn(out, u, fs, rules_used):
         sig_line += "\n    " + where_text
     if fs.opts.get("contract_only"):
         out.add("#[verifier::external_body] // contract of %s assumed here; it is verified in its home unit" % fs.name, ("contract_only", fs.name))
+    elif fs.opts.get("trusted"):
+        out.add("#[verifier::external_body] // TRUSTED contract of %s: body not verified (dropped from the unit)" % fs.name, ("trusted", fs.name))
     for a in fs.opts.get("attrs", []):
         if fs.opts.get("contract_only") and "spinoff" in a: continue
         out.add(a, ("glue",))
@@ -812,7 +815,7 @@ def emit_fn(out, u, fs, rules_used):
                 if not txt.rstrip().endswith(","): txt += ","
                 out.add(indent + "    " + txt.replace("\n", "\n" + indent), ("clause", u.name, fs.name, kind, c.tags, c.src_line, cid))
     emit_clause_group(fs.clauses, ("requires", "ensures", "returns", "decreases"), "    ")
-    if fs.opts.get("contract_only"):
+    if fs.opts.get("contract_only") or fs.opts.get("trusted"):
         out.add("{ unimplemented!() }", ("glue",))
         return
     # ---- body with splices ----
@@ -871,7 +874,7 @@ def emit_fn(out, u, fs, rules_used):
                 kc = match_close(body, loops[kk][1])
                 ins.append((off(body[kc]) + 1, "after", block))
             else:
-                ins.append((off(body[block_end_tok(body, loops[kk][1])]), "before", block))
+                ins.append((off(body[block_end_tok(body, loops[kk][1], unit_block=True)]), "before", block))
         elif where.startswith("arm") or where.startswith("block"):
             m = re.match(r"(arm|block)\s+/(.*?)/(?:\s*#(\d+))?\s+(\w+)$", where, re.S)
             kind_, rx, nth, pos_ = m.group(1), m.group(2), int(m.group(3) or 1), m.group(4)
